@@ -43,6 +43,8 @@ def damage(path, slot_size, rng, ops):
                 else:
                     edge = edge % (2 ** 64)
                 c[idx] = edge; write_cell(a, c); done.append('slot %d field %d := %d' % (a, idx, edge))
+            elif kind == 'entrysize_max':      # an impossible total size in a slot header that is otherwise sane()
+                c[2] = 2 ** 64 - 1; write_cell(a, c); done.append('slot %d entrySize := 2^64-1' % a)
             elif kind == 'crosslink':
                 c[6] = b; write_cell(a, c); done.append('slot %d nextSlot := %d (other chain)' % (a, b))
             elif kind == 'selfloop':
@@ -67,7 +69,7 @@ def damage(path, slot_size, rng, ops):
                 f.seek(0); f.write(bytes(rng.getrandbits(8) for _ in range(64))); done.append('db header := random bytes')
     return done
 
-KINDS = ['field', 'field', 'field', 'crosslink', 'selfloop', 'backlink', 'zero', 'dup', 'swap', 'keyflip', 'garbage', 'truncate', 'dbheader']
+KINDS = ['field', 'field', 'field', 'entrysize_max', 'crosslink', 'selfloop', 'backlink', 'zero', 'dup', 'swap', 'keyflip', 'garbage', 'truncate', 'dbheader']
 
 @register
 class C57(hc.PProp):
@@ -155,8 +157,9 @@ class C57(hc.PProp):
             if kind == 'ROCKWALK' and rest[1] == 'entry':
                 o.stats['entries_walked'] += 1
                 if rest[-1] != 'ok':
-                    ncross = sum(1 for d in plan.get('damage', []) if d.get('kind') == 'crosslink')
-                    suffix = ':multi-crosslink' if ncross >= 2 else ''     # several chains cross-linked at once: see known_findings.json
+                    # a nextSlot field redirected into another entry's chain (kind crosslink, or a field edit of nextSlot): see known_findings.json
+                    ncross = sum(1 for d in plan.get('damage', []) if d.get('kind') == 'crosslink' or (d.get('kind') == 'field' and d.get('field', 0) % 6 == 5))
+                    suffix = ':crosslinked' if ncross >= 1 else ''
                     o.violations.append(Violation('C57:readable-entry-%s%s' % (rest[-1], suffix), 'after %s: index entry %s (walk %s) has %s slices, payload sum %s, entry size %s: %s' % (tag, rest[3], rest[0], rest[4], rest[5], rest[6], rest[-1])))
         recs2, sent2 = cf.analyse(h2, p2)
         for r in recs2:
